@@ -2,14 +2,14 @@ package main
 
 import (
 	"bytes"
-	"sort"
-	"strings"
 	"encoding/json"
 	"flag"
 	"fmt"
 	"math/rand"
 	"os"
 	"path/filepath"
+	"sort"
+	"strings"
 	"time"
 
 	"github.com/thomasjungblut/go-sstables/simpledb"
@@ -67,9 +67,9 @@ type dbOpenArgs struct {
 }
 
 type dbOpenRes struct {
-	Err  string   `json:"err,omitempty"`
-	Vals [][]byte `json:"vals"`  // value per key, nil entry = not found
-	Found []bool  `json:"found"`
+	Err    string   `json:"err,omitempty"`
+	Vals   [][]byte `json:"vals"` // value per key, nil entry = not found
+	Found  []bool   `json:"found"`
 	Tables []uint64 `json:"tables"` // generations of the live tables right after Open
 }
 
@@ -142,11 +142,11 @@ type nestObs struct {
 }
 
 type c02Case struct {
-	Opts    dbOpts   `json:"opts"`
-	Steps   []dbStep `json:"steps"`
-	Keys    [][]byte `json:"keys"`
-	Nest    int      `json:"nest"` // number of distinct images on which recovery itself is cut (C10)
-	NoAbs   bool     `json:"no_abs,omitempty"` // big sessions: the images are judged by the oracle only, not by the model
+	Opts  dbOpts   `json:"opts"`
+	Steps []dbStep `json:"steps"`
+	Keys  [][]byte `json:"keys"`
+	Nest  int      `json:"nest"`             // number of distinct images on which recovery itself is cut (C10)
+	NoAbs bool     `json:"no_abs,omitempty"` // big sessions: the images are judged by the oracle only, not by the model
 	// observations
 	Images  []dbImgObs `json:"images"`
 	NEvents int        `json:"n_events"`
@@ -616,8 +616,8 @@ func genCrashCase(r *rand.Rand, async bool, nest int, nsteps int, big bool) *c02
 				r.Read(v)
 			}
 			if big && j%5 == 2 {
-				v = make([]byte, 1500000) // several of these exceed the 4 MiB WAL buffer
-				r.Read(v[:64])
+				v = make([]byte, 1500000) // several of these exceed the 4 MiB WAL buffer (incompressible: the WAL is snappy-compressed)
+				r.Read(v)
 			}
 			c.Steps = append(c.Steps, dbStep{Op: "put", K: k, V: v})
 		case x < 8:
@@ -664,6 +664,23 @@ func genC02(r *rand.Rand, tier string) []Case {
 	return cases
 }
 
+// one WAL generation that logs more than the 4 MiB write buffer: the buffer flush cuts a record, the cut stays on
+// disk until the next flush or the rotation that closes the file
+func genBigGenerationCase(r *rand.Rand) *c02Case {
+	keys := [][]byte{[]byte("a"), []byte("b"), []byte("c"), []byte("d")}
+	c := &c02Case{Keys: keys, NoAbs: true}
+	c.Opts = dbOpts{MemstoreBytes: 1 << 30, Threshold: 10, MaxSize: 5 << 30, RatioPct: 100, WBuf: 4096, RBuf: 4096, AsyncWAL: true}
+	c.Steps = append(c.Steps, dbStep{Op: "put", K: keys[0], V: []byte("first")})
+	for j := 0; j < 3; j++ {
+		v := make([]byte, 1500000+r.Intn(200000))
+		r.Read(v)
+		c.Steps = append(c.Steps, dbStep{Op: "put", K: keys[1+j%2], V: v})
+	}
+	c.Steps = append(c.Steps, dbStep{Op: "put", K: keys[3], V: []byte("after-the-cut")}, dbStep{Op: "rotate"},
+		dbStep{Op: "put", K: keys[0], V: []byte("second")}, dbStep{Op: "rotate"}, dbStep{Op: "del", K: keys[3]})
+	return c
+}
+
 func genC13(r *rand.Rand, tier string) []Case {
 	n := 4
 	if tier == "thorough" {
@@ -673,7 +690,7 @@ func genC13(r *rand.Rand, tier string) []Case {
 	for i := 0; i < n; i++ {
 		cases = append(cases, genCrashCase(r, true, 0, 8+r.Intn(12), i == 0))
 	}
-	cases = append(cases, genTinyCrashCase(r, true, 0), genTinyCrashCase(r, true, 0), genHotKeyCrashCase(r, true))
+	cases = append(cases, genTinyCrashCase(r, true, 0), genTinyCrashCase(r, true, 0), genHotKeyCrashCase(r, true), genBigGenerationCase(r))
 	return cases
 }
 
